@@ -30,7 +30,7 @@ theorem fallback_spec (fuel pos : Nat) (k : FbKind) (h : List Cond) (inner : Lay
           else
             let ok := !isFailure h (fbOutcome k)
             some (⟨(fbOutcome k).val, (fbOutcome k).err, true, ok, ok⟩,
-                  (r1.emit "fb.onFailure" pos).emit "fb.onFallbackExecuted" pos)
+                  ((r1.emit "fb.onFailure" pos).emitSeen "fb.fn" pos res.outcome).emit "fb.onFallbackExecuted" pos)
         else some (res.withDone true true, r1.emit "fb.onSuccess" pos) := by
   simp only [applyPolicy]
   cases hi : inner r with
@@ -60,14 +60,14 @@ theorem fallback_applied_iff (fuel pos : Nat) (k : FbKind) (h : List Cond) (inne
   · by_cases hcan : r1.cancelled = true
     · simp only [hf, hcan, if_true, Option.some.injEq, Prod.mk.injEq] at ho
       obtain ⟨_, rfl⟩ := ho
-      simp [applications, Run.emit, List.filter_append, hf, hcan]
+      simp [applications, Run.emit, Run.emitSeen, List.filter_append, hf, hcan]
     · simp only [hf, hcan, if_true, Option.some.injEq, Prod.mk.injEq] at ho
       obtain ⟨_, rfl⟩ := ho
       have hcan' : r1.cancelled = false := by simpa using hcan
-      simp [applications, Run.emit, List.filter_append, hf, hcan']
+      simp [applications, Run.emit, Run.emitSeen, List.filter_append, hf, hcan']
   · simp only [hf, Option.some.injEq, Prod.mk.injEq] at ho
     obtain ⟨_, rfl⟩ := ho
-    simp [applications, Run.emit, List.filter_append, hf]
+    simp [applications, Run.emit, Run.emitSeen, List.filter_append, hf]
 
 /-- the fallback's output replaces the result and is itself classified by the same conditions; the overall verdict is reset
 to that classification -/
@@ -93,6 +93,17 @@ theorem no_fallback_output_under_cancel (fuel pos : Nat) (k : FbKind) (h : List 
     ∃ r', applyPolicy fuel pos (.fallback k h) inner r = some (timeoutResult, r') ∧ applications pos r'.log = applications pos r1.log := by
   rw [fallback_spec, hi]
   simp [hf, hc, applications, Run.emit, List.filter_append]
+
+/-- **the fallback function sees the failed result and error as the execution's last result**: the event of the fallback
+function carries exactly the inner layer's outcome (including `ExceededError`, `ErrOpen`, `ErrFull`, rate-limit and timeout errors) -/
+theorem fallback_sees_failed_outcome (fuel pos : Nat) (k : FbKind) (h : List Cond) (inner : Layer) (r : Run)
+    (res : PR) (r1 : Run) (hi : inner r = some (res, r1)) (hf : isFailure h res.outcome = true) (hc : r1.cancelled = false)
+    (res' : PR) (r' : Run) (ho : applyPolicy fuel pos (.fallback k h) inner r = some (res', r')) :
+    (⟨"fb.fn", pos, r1.attempts, r1.execs, some res.outcome⟩ : Event) ∈ r'.log := by
+  rw [fallback_spec, hi] at ho
+  simp only [hf, hc, if_true, Bool.false_eq_true, if_false, Option.some.injEq, Prod.mk.injEq] at ho
+  obtain ⟨_, rfl⟩ := ho
+  simp [Run.emit, Run.emitSeen]
 
 /-- the inner layer is entered exactly once and sees the run state unchanged: the fallback adds nothing before it -/
 theorem fallback_calls_inner_once (fuel pos : Nat) (k : FbKind) (h : List Cond) (inner : Layer) (r : Run)
